@@ -8,7 +8,7 @@ CONSTANTS
   EnableDebugWrites = FALSE
   SrcVals = {0, 255}
   Dts = {2}
-  CfgSel = "fb"
+  CfgSel = "fb1"
 VIEW View
 CHECK_DEADLOCK FALSE
 INVARIANTS
